@@ -1,26 +1,10 @@
 /- C47 — property theorems (see docs/C47.md).  Model: C47/Model.lean, specification: C47/Spec.lean. -/
-import TornadoModel.C47.Lemmas
+import TornadoModel.C47.Inv3
 namespace TornadoModel.C47
 open TornadoModel.C06 (Str joinWith dget dset)
 open Spec
 
 /-! ## the environ is always built -/
-
-/-- closed form of the header step: both guarded `pop`s succeed -/
-theorem addHeaders_eq (vars hs : List (Str × Str)) :
-    addHeaders vars hs = .ok (
-      let st1 := if hasName (str "Content-Type") hs then
-        (dset (str "CONTENT_TYPE") (joinWith [cComma] (valuesOf (str "Content-Type") hs)) vars,
-          hs.filter (fun p => p.1 ≠ str "Content-Type")) else (vars, hs)
-      let st2 := if hasName (str "Content-Length") st1.2 then
-        (dset (str "CONTENT_LENGTH") (joinWith [cComma] (valuesOf (str "Content-Length") st1.2)) st1.1,
-          st1.2.filter (fun p => p.1 ≠ str "Content-Length")) else st1
-      (items st2.2).foldl (fun acc kv => dset (cgiName kv.1) kv.2 acc) st2.1) := by
-  unfold addHeaders
-  rw [popInto_ok]
-  simp only [bind, Except.bind]
-  rw [popInto_ok]
-  rfl
 
 theorem addHeaders_total (vars hs : List (Str × Str)) : ∃ v, addHeaders vars hs = .ok v :=
   ⟨_, addHeaders_eq vars hs⟩
@@ -125,6 +109,102 @@ theorem environ_content_headers (base hs vars : List (Str × Str)) (h : addHeade
     · rw [if_pos h2]; dsimp only; rw [dget_dset_ne _ _ _ hne]
     · rw [if_neg h2]
 
+/-! ## the `HTTP_*` entries -/
+
+/-- **http_var_name**: the variable name of a header is `HTTP_` followed by the header name with every `-`
+    replaced by `_` and every ASCII lower-case letter upper-cased, all other characters unchanged -/
+theorem http_var_name (n : Str) : cgiName n = str "HTTP_" ++ n.map cgiChar := by
+  unfold cgiName
+  congr 1
+  apply List.map_congr_left
+  intro c _
+  exact upperC_dash c
+
+example : cgiName (str "X-Real-Ip") = str "HTTP_X_REAL_IP" := by decide
+
+/-- **environ_http_vars**: a request header other than Content-Type / Content-Length whose variable name is
+    not shared with a differently spelled header (`X-a_b` / `X-A-B`) appears in the environ under
+    `http_var_name`, with all its values joined by commas in order — whatever the base variables were. -/
+theorem environ_http_vars (base hs vars : List (Str × Str)) (h : addHeaders base hs = .ok vars) (n : Str)
+    (hn : hasName n hs = true) (hc : contentNames.contains n = false) (hu : uniqueCgi hs n = true) :
+    dget (cgiName n) vars = some (joinWith [cComma] (valuesOf n hs)) := by
+  obtain ⟨vars0, h0, _⟩ := addHeaders_rest base hs
+  rw [h0] at h
+  simp only [Except.ok.injEq] at h
+  subst h
+  have hct : n ≠ ctName := by
+    intro e; rw [e] at hc; exact absurd hc (by decide)
+  have hcl : n ≠ clName := by
+    intro e; rw [e] at hc; exact absurd hc (by decide)
+  have hnm : n ∈ hs.map (·.1) := (hasName_iff n hs).mp hn
+  have hmem : n ∈ (rest hs).map (·.1) := (mem_names_rest n hs).mpr ⟨hnm, hct, hcl⟩
+  have hlen : (((hs.map (·.1)).eraseDups.filter (fun m => cgiName m = cgiName n)).length = 1) := by
+    simpa [uniqueCgi] using hu
+  apply dget_foldl_dset_hit (cgiName n) (fun kv => cgiName kv.1)
+  · intro kv hkv hk
+    rw [mem_items] at hkv
+    have hm := (mem_names_rest kv.1 hs).mp hkv.1
+    have e : kv.1 = n :=
+      eq_of_mem_length_one _ hlen kv.1 n
+        (List.mem_filter.mpr ⟨List.mem_eraseDups.mpr hm.1, by simpa using hk⟩)
+        (List.mem_filter.mpr ⟨List.mem_eraseDups.mpr hnm, by simp⟩)
+    rw [hkv.2, e, valuesOf_rest n hct hcl]
+  · left
+    exact ⟨(n, joinWith [cComma] (valuesOf n (rest hs))), (mem_items _ _).mpr ⟨hmem, rfl⟩, rfl⟩
+
+example : (match addHeaders [] [(str "X-Foo", str "1"), (str "Content-Type", str "t"), (str "X-Foo", str "2")] with
+    | .ok vars => dget (str "HTTP_X_FOO") vars == some (str "1,2") && dget (str "HTTP_CONTENT_TYPE") vars == none
+    | .error _ => false) = true := by decide
+example : hasName (str "X-Foo") [(str "X-Foo", str "1"), (str "X-Foo", str "2")] = true ∧
+    contentNames.contains (str "X-Foo") = false ∧
+    uniqueCgi [(str "X-Foo", str "1"), (str "X-Foo", str "2")] (str "X-Foo") = true := by decide
+
+/-- **environ_http_names**: every variable of the environ is a base variable, CONTENT_TYPE, CONTENT_LENGTH, or the
+    `http_var_name` of a request header that is neither Content-Type nor Content-Length — nothing else is created. -/
+theorem environ_http_names (base hs vars : List (Str × Str)) (h : addHeaders base hs = .ok vars) (k : Str)
+    (hk : k ∈ keys vars) :
+    k ∈ keys base ∨ k = str "CONTENT_TYPE" ∨ k = str "CONTENT_LENGTH" ∨
+      ∃ n, hasName n hs = true ∧ contentNames.contains n = false ∧ k = cgiName n := by
+  obtain ⟨vars0, h0, hv0⟩ := addHeaders_rest base hs
+  rw [h0] at h
+  simp only [Except.ok.injEq] at h
+  subst h
+  rcases mem_keys_foldl_dset k (fun kv => cgiName kv.1) _ _ hk with h' | ⟨kv, hkv, e⟩
+  · rcases hv0 k h' with a | a | a
+    · exact Or.inl a
+    · exact Or.inr (Or.inl a)
+    · exact Or.inr (Or.inr (Or.inl a))
+  · right; right; right
+    rw [mem_items] at hkv
+    have hm := (mem_names_rest kv.1 hs).mp hkv.1
+    refine ⟨kv.1, (hasName_iff _ _).mpr hm.1, ?_, e⟩
+    have e2 : contentNames = [ctName, clName] := rfl
+    rw [e2]
+    simp [hm.2.1, hm.2.2]
+
+/-- **content_headers_not_http**: Content-Type and Content-Length themselves (`c`) never appear as `HTTP_CONTENT_TYPE` /
+    `HTTP_CONTENT_LENGTH`: the variable `http_var_name c` can only come from the base variables or from a header other
+    than those two that has this variable name (`Content_Type`) -/
+theorem content_headers_not_http (base hs vars : List (Str × Str)) (h : addHeaders base hs = .ok vars) (c : Str)
+    (hb : cgiName c ∉ keys base)
+    (hno : ∀ n, hasName n hs = true → contentNames.contains n = false → cgiName n ≠ cgiName c) :
+    cgiName c ∉ keys vars := by
+  intro hk
+  rcases environ_http_names base hs vars h _ hk with a | a | a | ⟨n, h1, h2, e⟩
+  · exact hb a
+  · exact cgiName_ne c _ str_ct_head a
+  · exact cgiName_ne c _ str_cl_head a
+  · exact hno n h1 h2 e.symm
+
+example : cgiName (str "Content-Type") ∉ keys ([] : List (Str × Str)) ∧
+    (∀ n, hasName n [(str "Content-Type", str "t")] = true → contentNames.contains n = false →
+      cgiName n ≠ cgiName (str "Content-Type")) := by
+  refine ⟨by simp [keys], ?_⟩
+  intro n h1 h2
+  have : str "Content-Type" = n := by simpa [hasName] using h1
+  rw [← this] at h2
+  exact absurd h2 (by decide)
+
 /-! ## the response -/
 
 /-- **response_faithful** (what is handed to the connection): the status code and reason are the two halves
@@ -180,12 +260,58 @@ theorem wire_shape (close : Bool) (r : Resp) :
       str "HTTP/1.1 " ++ toDec r.code ++ [32] ++ r.reason ++ headerBytes ++ crlf ++ crlf ++ r.body :=
   ⟨_, rfl⟩
 
-/-- stretch, tie-only: `HTTPHeaders.add` + `get_all` (grouping by normalised name) keeps, for every name, the
-    values the application gave in their order.  Checked on every case by the oracle `Spec.faithful`. -/
-def group_values_goal : Prop :=
+/-- **body_join**: for a request other than HEAD and a status that carries a body, the body handed to the connection —
+    and the bytes that follow the blank line on the wire — are the application's `write()` arguments followed by the
+    chunks of its iterable, concatenated in order, with nothing added, dropped or re-framed. -/
+theorem body_join (method tver status : Str) (hs : List (Str × Str)) (writes chunks : List Bytes) (close : Bool) (r : Resp)
+    (h : respond method tver { status := status, headers := hs, body := joinResponse (writes ++ chunks) } = .ok r)
+    (hm : isHead method = false) (hb : noBodyStatus r.code = false) :
+    r.body = writes.flatten ++ chunks.flatten ∧
+    ∃ headerBytes, wire close r =
+      str "HTTP/1.1 " ++ toDec r.code ++ [32] ++ r.reason ++ headerBytes ++ crlf ++ crlf ++
+        (writes.flatten ++ chunks.flatten) := by
+  obtain ⟨_, _, hbody⟩ := response_faithful method tver _ r h
+  have hbody' : r.body = writes.flatten ++ chunks.flatten := by
+    rw [hbody, hm, hb]
+    simp [joinResponse]
+  refine ⟨hbody', ?_⟩
+  obtain ⟨hbytes, e⟩ := wire_shape close r
+  exact ⟨hbytes, by rw [e, hbody']⟩
+
+/-- **body_dropped**: for HEAD requests and for 1xx / 204 / 304 statuses nothing follows the blank line -/
+theorem body_dropped (method tver : Str) (a : AppOut) (close : Bool) (r : Resp) (h : respond method tver a = .ok r)
+    (hd : isHead method = true ∨ noBodyStatus r.code = true) :
+    ∃ headerBytes, wire close r =
+      str "HTTP/1.1 " ++ toDec r.code ++ [32] ++ r.reason ++ headerBytes ++ crlf ++ crlf := by
+  obtain ⟨_, _, hbody⟩ := response_faithful method tver a r h
+  have hbody' : r.body = [] := by
+    rw [hbody]
+    rcases hd with hd | hd <;> simp [hd]
+  obtain ⟨hbytes, e⟩ := wire_shape close r
+  exact ⟨hbytes, by rw [e, hbody', List.append_nil]⟩
+
+example : (match respond (str "GET") (str "6.5")
+      (AppOut.mk (str "200 OK") [] (joinResponse ([[104], [105, 33]] ++ [[], [13, 10], [48]]))) with
+    | .ok r => isHead (str "GET") == false && noBodyStatus r.code == false && r.body == [104, 105, 33, 13, 10, 48]
+    | .error _ => false) = true := by decide
+example : (match respond (str "GET") (str "6.5") { status := str "204 No Content", headers := [], body := [104] } with
+    | .ok r => noBodyStatus r.code && r.body == []
+    | .error _ => false) = true := by decide
+
+/-- **group_values**: `HTTPHeaders.add` for every pair followed by `get_all()` (grouping by normalised name)
+    keeps, for every name, exactly the values the application gave under the spellings of that name, in their
+    order (invariant: the keys of the grouped dictionary stay pairwise distinct, `grouped_keys_nodup`). -/
+theorem group_values :
   ∀ (hs : List (Str × Str)) (n : Str),
     (getAll (grouped hs)).filterMap (fun p => if p.1 = n then some p.2 else none) =
-      hs.filterMap (fun p => if TornadoModel.C06.normalize p.1 = n then some p.2 else none)
+      hs.filterMap (fun p => if TornadoModel.C06.normalize p.1 = n then some p.2 else none) := by
+  intro hs n
+  have h := gvals_foldl n hs [] List.nodup_nil
+  rw [gvals_nil, List.nil_append] at h
+  exact h
+
+example : getAll (grouped [(str "set-cookie", str "a"), (str "X-App", str "1"), (str "Set-Cookie", str "b")]) =
+    [(str "Set-Cookie", str "a"), (str "Set-Cookie", str "b"), (str "X-App", str "1")] := by decide
 
 /-! ## non-vacuity -/
 example : (match respond (str "HEAD") (str "6.5") { status := str "200 OK", headers := [(str "X-A", str "1")], body := [104, 105] } with
